@@ -17,9 +17,14 @@
      payload_through f g : every payload p satisfies  not (f p != p);  f = pser for the
                      dict and file paths (payload.serialise() or the payload itself),
                      f = jp after pser for JSON (payloads JSON represents faithfully).
-   No bound on the number of nodes, outputs or inputs. *)
+   No bound on the number of nodes, outputs or inputs; outputs, inputs and node names in
+   any order (nothing is assumed sorted).
+   Sessions (Graph/ExportSession.v): one Cascade object is written any number of times and
+   its graph replaced (`+=`) in between; in_domain = wf /\ kw_ok /\ unique_names /\
+   payload_through pser, required of the graphs the object has when it is written. *)
 From Coq Require Import List String Bool Arith ZArith Lia.
 From EKW Require Import Graph.GStore Graph.Export Graph.ExportProofs Graph.ExportCheck Graph.ExportTopo.
+From EKW Require Import Graph.ExportSession Graph.ExportSessionProofs Graph.ExportSessionCheck.
 Import ListNotations.
 Open Scope string_scope.
 Open Scope list_scope.
@@ -59,6 +64,34 @@ Theorem C12_roundtrip_file_partial :
                   cascade_from_serialised P static_order F dill_load file = Ok g' /\
                   graph_eq P peqb g' g = Ok true.
 Proof. exact roundtrip_file. Qed.
+
+(* One Cascade object over time: after ANY sequence of writes and replacements of its graph
+   (`c += other`), the content a file name holds at the end is the one of the LAST write to
+   that name and reads back equal to the graph the object had at that moment -- not to a
+   graph it had at an earlier write.  The object ends with the graph it was given last. *)
+Theorem C12_session_file_partial :
+  forall (P : Type) (peqb : P -> P -> bool) (pser : P -> P) (static_order : deps_t -> res (list string)),
+  (forall deps order, static_order deps = Ok order -> topo_okb deps order = true) ->
+  (forall deps, (exists o, topo_okb deps o = true) -> exists order, static_order deps = Ok order) ->
+  forall (F : Type) (dill_dump : sgraph P -> F) (dill_load : F -> res (sgraph P)),
+  (forall d, dill_load (dill_dump d) = Ok d) ->
+  forall (g0 : graph P) (files : list (string * F)) (ops1 : list (cop P)) (file : string) (ops2 : list (cop P)),
+  Forall (in_domain P peqb pser) (written P g0 (ops1 ++ CWrite file :: ops2)) ->
+  writes P file ops2 = false ->
+  exists st' content,
+    crun P pser F dill_dump (cnew P F g0 files) (ops1 ++ CWrite file :: ops2) = Ok st' /\
+    c_graph st' = cur P g0 (ops1 ++ CWrite file :: ops2) /\
+    lookup file (c_files st') = Some content /\
+    reads_back P peqb static_order F dill_load content (cur P g0 ops1).
+Proof. exact session_file. Qed.
+
+(* ... and a session leaves the files it does not write alone *)
+Theorem C12_session_other_files :
+  forall (P : Type) (pser : P -> P) (F : Type) (dill_dump : sgraph P -> F)
+         (g0 : graph P) (files : list (string * F)) (ops : list (cop P)) (st' : @cstate P F) (file : string),
+  crun P pser F dill_dump (cnew P F g0 files) ops = Ok st' -> writes P file ops = false ->
+  lookup file (c_files st') = lookup file files.
+Proof. exact session_other_files. Qed.
 
 (* Graph.nodes() never runs out of the model's fuel, never meets a dangling index, and
    returns each node once, the sinks included, closed under "is an input of" *)
@@ -114,6 +147,64 @@ Proof.
   vm_compute. reflexivity.
 Qed.
 
+(* outputs, inputs and names in no particular order: thirteen numbered outputs
+   ("output10" sorts before "output2"), named outputs that are not sorted, a duplicate *)
+Definition g_unsorted : graph pv := mkGraph
+  [ mkNode "stats" ["mean"; "std"; "count"; "mean"] (Some (PStr "s")) [];
+    mkNode "wide" ["output0"; "output1"; "output2"; "output3"; "output4"; "output5"; "output6";
+                   "output7"; "output8"; "output9"; "output10"; "output11"; "output12"] None
+           [("z", (0, "std")); ("a", (0, "count"))];
+    mkNode "node10" ["0"] None [("input2", (1, "output10")); ("input10", (1, "output2")); ("b", (0, "mean"))];
+    mkNode "node2" ["y"; "x"] (Some (PInt 2)) [("k", (2, "0"))] ]
+  [3; 1].
+
+Ltac prove_domain g :=
+  split; [unfold g; prove_wf|];
+  split; [intros i nd H; unfold g in H; idx i H; simpl; intros k Hk; intuition (subst; discriminate)|];
+  split; [unfold g; prove_unique|];
+  intros i nd p H Hp; unfold g in H; idx i H; simpl in Hp; try discriminate Hp; injection Hp as <-; reflexivity.
+
+Lemma g_ex_domain : in_domain pv pv_eqb pv_ser g_ex.
+Proof. prove_domain g_ex. Qed.
+Lemma g_unsorted_domain : in_domain pv pv_eqb pv_ser g_unsorted.
+Proof. prove_domain g_unsorted. Qed.
+
+Example C12_unsorted_nonvacuous :
+  in_domain pv pv_eqb pv_ser g_unsorted /\
+  payload_through pv pv_eqb (fun p => pv_json (pv_ser p)) g_unsorted /\
+  roundtrip_with kahn true g_unsorted = Ok true /\
+  (* the serialised form keeps the declared order of the outputs *)
+  (exists d sn, serialise pv pv_ser g_unsorted = Ok d /\ lookup "stats" d = Some sn /\
+                s_outs sn = Some ["mean"; "std"; "count"; "mean"]) /\
+  (* and == does see a permutation of the outputs: sorting them is not an equal graph *)
+  graph_eq pv pv_eqb
+    (mkGraph [mkNode "stats" ["count"; "mean"; "mean"; "std"] (Some (PStr "s")) []] [0])
+    (mkGraph [mkNode "stats" ["mean"; "std"; "count"; "mean"] (Some (PStr "s")) []] [0]) = Ok false.
+Proof.
+  split; [exact g_unsorted_domain|].
+  split; [intros i nd p H Hp; unfold g_unsorted in H; idx i H; simpl in Hp; try discriminate Hp; injection Hp as <-; reflexivity|].
+  split; [vm_compute; reflexivity|].
+  split; [eexists; eexists; split; [vm_compute; reflexivity | split; [vm_compute; reflexivity | reflexivity]]|].
+  vm_compute. reflexivity.
+Qed.
+
+(* a session: write, grow, write another name, grow, overwrite the first name *)
+Definition ops_ex : list (cop pv) :=
+  [CWrite "a.dill"; CSet g_unsorted; CWrite "b.dill"; CSet g_ex; CWrite "a.dill"; CSet g_unsorted].
+
+Example C12_session_nonvacuous :
+  Forall (in_domain pv pv_eqb pv_ser) (written pv g_ex ops_ex) /\
+  List.length (written pv g_ex ops_ex) = 3 /\
+  writes pv "b.dill" [CSet g_ex; CWrite "a.dill"; CSet g_unsorted] = false /\
+  session_reads_back g_ex ops_ex [("a.dill", g_ex); ("b.dill", g_unsorted)] = Ok true /\
+  (* a file does not read back equal to a graph the object had at another time *)
+  session_reads_back g_ex ops_ex [("b.dill", g_ex)] = Ok false.
+Proof.
+  split; [simpl; apply Forall_cons; [exact g_ex_domain|]; apply Forall_cons; [exact g_unsorted_domain|];
+          apply Forall_cons; [exact g_ex_domain | apply Forall_nil]|].
+  split; [reflexivity|]. split; [reflexivity|]. split; vm_compute; reflexivity.
+Qed.
+
 (* the JSON hypothesis is needed: a tuple payload comes back as a list and == says False *)
 Example C12_json_unfaithful_payload :
   let g := mkGraph [mkNode "n" ["0"] (Some (PSeq true [PInt 1])) []] [0] in
@@ -156,6 +247,8 @@ Qed.
 Print Assumptions C12_roundtrip_partial.
 Print Assumptions C12_roundtrip_json_partial.
 Print Assumptions C12_roundtrip_file_partial.
+Print Assumptions C12_session_file_partial.
+Print Assumptions C12_session_other_files.
 Print Assumptions C12_nodes_total.
 Print Assumptions C12_roundtrip_any_input_name_refuted.
 Print Assumptions C12_sink_rule_before_fix_refuted.
